@@ -178,6 +178,11 @@ func propC08(c *Ctx) {
 		})
 	}
 
+	c.Returns(f2, "(*fragmentation.reassembler).tooOld", RetSpec{Args: []string{"($1 < time.Time.Sub(time.Now(), $0.creationTime))"}, Why: "too old = strictly more than the timeout has passed since the reassembler was created"})
+
+	f11 := c.Rule("F11", "K7 site tables (closed)", "the reassembler LRU list is a correct doubly-linked list: PushFront, Remove, Back, links", 15)
+	c.ListImpl(f11, "fragmentation", "reassemblerList", "reassemblerEntry", "reassemblerElementMapper", "PushFront", "Remove")
+
 	f10 := c.Rule("F10", "K9 site tables (closed)", "the fragment heap is a heap over the fragment offset: Len/Less/Swap/Push/Pop", 7)
 	c.HeapImpl(f10, "(*fragmentation.fragHeap).", "(*fragmentation.fragHeap).", "($0[$1].offset < $0[$2].offset)")
 
